@@ -363,7 +363,7 @@ func (w *weaver) accStmts(s ast.Stmt) (before, after []ast.Stmt) {
 		} else {
 			st = exprStmt(call("vhAcc",
 				thunk(&ast.FieldList{List: []*ast.Field{{Type: &ast.InterfaceType{Methods: &ast.FieldList{}}}}},
-					&ast.ReturnStmt{Results: []ast.Expr{&ast.UnaryExpr{Op: token.AND, X: a.expr}}}),
+					&ast.ReturnStmt{Results: []ast.Expr{addrOf(a)}}),
 				lit(a.name), id(strconv.FormatBool(a.write)), lit(w.site(s))))
 			w.count("acc")
 		}
@@ -380,6 +380,13 @@ func (w *weaver) accStmts(s ast.Stmt) (before, after []ast.Stmt) {
 		}
 	}
 	return
+}
+
+func addrOf(a acc) ast.Expr {
+	if a.ptr {
+		return a.expr
+	}
+	return &ast.UnaryExpr{Op: token.AND, X: a.expr}
 }
 
 // stmt rewrites one statement. before/after are statements to be placed
@@ -1321,6 +1328,8 @@ type acc struct {
 	idx ast.Expr
 	cnt ast.Expr
 	app bool
+	// ptr: expr already is the address (access through a pointer, *p)
+	ptr bool
 }
 
 func (w *weaver) exprText(e ast.Expr) string {
@@ -1412,6 +1421,12 @@ func (w *weaver) collect(s ast.Stmt) []acc {
 		case *ast.ParenExpr:
 			visit(e.X, write)
 		case *ast.StarExpr:
+			// access through a pointer: the location is the pointer's value
+			if t := w.info().TypeOf(e.X); t != nil && w.pure(e.X) {
+				if pt, ok := t.Underlying().(*types.Pointer); ok && !isSyncType(pt.Elem()) {
+					out = append(out, acc{expr: e.X, ptr: true, text: "*" + w.exprText(e.X), name: "*" + types.TypeString(pt.Elem(), func(p *types.Package) string { return p.Name() }), write: write})
+				}
+			}
 			visit(e.X, false)
 		case *ast.UnaryExpr:
 			if e.Op == token.AND {
